@@ -25,7 +25,7 @@ def read_char_escape(scan):
     if escape := scan.match(unicode_escape):
         codepoint = int(escape, 16)
         try: return chr(codepoint)
-        except ValueError:
+        except (ValueError, OverflowError):
             raise LexerError(
                 f'Invalid unicode codepoint: {codepoint:X}',
                 scan.cursor
